@@ -5,6 +5,7 @@ Every wait is bounded.  A wait for something the *implementation* owes (a reply,
 runs out is a finding; a wait for something only the harness itself does (spawning python) raises HarnessTimeout."""
 import asyncio
 import collections
+import gc
 import os
 import shutil
 import sys
@@ -34,12 +35,18 @@ def repo_src():
     return os.path.join(os.environ.get("VERIF_REPO", "/repo"), "src")
 
 
+BAD_HELLO = {"garbage": b"GET / HTTP/1.0\r\n\r\n", "nowidth": b"{}\n", "partial": b'{"terminal_wid', "emptyline": b"\n",
+             "notjson": b"hello\n"}
+
+
 class RawClient:
     kind = "raw"
 
     def __init__(self):
         self.reader = self.writer = None
         self.open = False
+        self.mute = False           # connected, no handshake sent
+        self.busy = None            # the waiting command in flight
 
     async def connect(self, srv_addr, name):
         try:
@@ -62,6 +69,45 @@ class RawClient:
             return False, None
         self.open = True
         return True, line.decode()
+
+    async def connect_only(self, srv_addr):
+        """transport-level connection, no handshake line (a port probe, a client killed at start-up, not a control client)"""
+        try:
+            if srv_addr[0] == "tcp":
+                fut = asyncio.open_connection("127.0.0.1", srv_addr[1])
+            else:
+                fut = asyncio.open_unix_connection(srv_addr[1])
+            self.reader, self.writer = await asyncio.wait_for(fut, STEP_WAIT)
+        except (ConnectionError, FileNotFoundError, OSError, asyncio.TimeoutError):
+            return False
+        self.open = True
+        self.mute = True
+        return True
+
+    async def send_only(self, line):
+        try:
+            self.writer.write(line.encode() + b"\n")
+            await self.writer.drain()
+            return True
+        except ConnectionError:
+            return False
+
+    async def read_reply(self, timeout):
+        """(reply or None, connection closed by the server afterwards)"""
+        try:
+            data = await asyncio.wait_for(self.reader.read(1 << 16), timeout)
+        except (ConnectionError, asyncio.TimeoutError):
+            return None, False
+        if not data:
+            return None, True
+        try:
+            more = await asyncio.wait_for(self.reader.read(1 << 16), 0.05)
+            if more == b"":
+                return data.decode(), True
+            data += more
+        except asyncio.TimeoutError:
+            pass
+        return data.decode(), False
 
     async def command(self, line):
         """returns (reply text or None, server closed the connection afterwards)"""
@@ -102,6 +148,10 @@ class RawClient:
                 self.writer.write(b"\n")
                 await self.writer.drain()
                 await asyncio.wait_for(self.reader.read(), STEP_WAIT)
+            elif how in BAD_HELLO:
+                # leaves in the middle of the handshake: something that is not a handshake line, then gone
+                self.writer.write(BAD_HELLO[how])
+                await self.writer.drain()
             self.writer.close()
             await asyncio.wait_for(self.writer.wait_closed(), STEP_WAIT)
         except (ConnectionError, asyncio.TimeoutError, OSError):
@@ -115,6 +165,8 @@ class CliClient:
     def __init__(self):
         self.proc = None
         self.open = False
+        self.mute = False
+        self.busy = None
         self.buf = ""
         self.err = ""
 
@@ -218,73 +270,198 @@ def expected_reply(pool, line):
     return str(getattr(pool, line.replace("-", "_"))) + "\n"
 
 
+QUIET = ["num-running", "is-locked", "pool-size", "num-ended", "is-full", "bogus"]
+WAITERS = ["until-closed", "gather-and-close"]
+
+
+class Book:
+    """static bookkeeping of a case: which client index exists, is open, is mute (no handshake), has a waiting command in
+    flight.  The generator draws valid ops from it, the runner skips ops it calls invalid (shrinking may produce them) and
+    it yields the life-cycle model's input lines per op."""
+
+    def __init__(self):
+        self.clients = []           # dicts: kind, open, hanging
+        self.stopped = False
+        self.closed = False         # the pool was closed by a release
+
+    def usable(self, i, mute=False):
+        return 0 <= i < len(self.clients) and self.clients[i]["open"] and self.clients[i]["hanging"] is None \
+            and (self.clients[i]["kind"] == "mute") == mute
+
+    def answered(self, i, lines):
+        lines.append(f"vin line {i}")
+        if self.stopped:
+            self.clients[i]["open"] = False     # the session leaves its loop after answering
+
+    def apply(self, op):
+        """-> (valid, model lines)"""
+        lines = []
+        if op[0] in ("connect", "probe"):
+            lines.append("vin connect")
+            if not self.stopped:
+                self.clients.append({"kind": "raw" if op[0] == "probe" else op[1], "open": True, "hanging": None})
+            return True, lines
+        if op[0] == "cmd":
+            if not self.usable(op[1]):
+                return False, lines
+            self.answered(op[1], lines)
+            return True, lines
+        if op[0] == "leave":
+            i = op[1]
+            if not (0 <= i < len(self.clients) and self.clients[i]["open"] and self.clients[i]["hanging"] is None):
+                return False, lines
+            mute = self.clients[i]["kind"] == "mute"
+            if mute != (op[2] in BAD_HELLO or (mute and op[2] in ("close", "eof"))):
+                return False, lines
+            self.clients[i]["open"] = False
+            lines.append(f"vin {'exit' if op[2] == 'exit' else 'close'} {i}")
+            return True, lines
+        if op[0] == "hang":
+            if not self.usable(op[1]) or self.clients[op[1]]["kind"] != "raw" or self.closed:
+                return False, lines
+            self.clients[op[1]]["hanging"] = op[2]
+            return True, lines
+        if op[0] == "release":
+            hangers = [i for i, c in enumerate(self.clients) if c["hanging"] is not None]
+            if not hangers:
+                return False, lines
+            closer = op[1]
+            if closer is not None:
+                if not self.usable(closer) or self.clients[closer]["kind"] != "raw":
+                    return False, lines
+                self.answered(closer, lines)
+            for i in hangers:
+                self.clients[i]["hanging"] = None
+                self.answered(i, lines)
+            self.closed = True
+            return True, lines
+        if op[0] == "stop":
+            if self.stopped:
+                return False, lines
+            self.stopped = True
+            lines.append("vin stop")
+            return True, lines
+        return False, lines
+
+    def open_clients(self, kinds=("raw", "cli")):
+        return [i for i, c in enumerate(self.clients) if c["open"] and c["hanging"] is None and c["kind"] in kinds]
+
+    def hangers(self):
+        return [i for i, c in enumerate(self.clients) if c["hanging"] is not None]
+
+
+def how_to_leave(rng, kind):
+    if kind == "cli":
+        return rng.choice(["exit", "eof"])
+    if kind == "mute":
+        return rng.choice(["close", "eof"] + sorted(BAD_HELLO))
+    return rng.choice(["close", "eof", "blank"])
+
+
 def gen_ops(rng, tier, cli_budget):
-    """connect / command / disconnect (clean, exit command, EOF) / stop in a random order; the tail closes everything so
-    that every case also checks the complete life cycle"""
+    """connect (raw | cli | mute = no handshake) / command / waiting command in flight while others are served / disconnect
+    (clean, exit command, EOF, in the middle of the handshake) / stop, in a random order; the tail releases every wait and
+    closes everything so that every case also checks the complete life cycle.  One case in four ends with a client that
+    leaves during its handshake as the LAST client before (or after) the stop."""
     ops = []
-    n_open = []
-    stopped = False
-    total = 0
+    b = Book()
+
+    def add(op):
+        ok, _ = b.apply(op)
+        if ok:
+            ops.append(op)
+        return ok
 
     def connect():
-        nonlocal total
-        kind = "cli" if (cli_budget[0] > 0 and rng.random() < 0.35) else "raw"
+        r = rng.random()
+        kind = "cli" if (cli_budget[0] > 0 and r < 0.3) else ("mute" if r > 0.78 else "raw")
         if kind == "cli":
             cli_budget[0] -= 1
-        ops.append(["connect", kind])
-        n_open.append((total, kind))
-        total += 1
+        add(["connect", kind])
 
     for _ in range(rng.randint(0, 3)):
         connect()
-    for _ in range(rng.randint(2, 9 if tier == "quick" else 16)):
-        r = rng.random()
-        if r < 0.2:
-            if stopped:
-                ops.append(["probe"])
-            elif total < 5:
-                connect()
-        elif r < 0.55 and n_open:
-            i, kind = rng.choice(n_open)
-            ops.append(["cmd", i, rng.choice(COMMANDS)])
-            if stopped:
-                n_open = [(j, k) for j, k in n_open if j != i]
-        elif r < 0.8 and n_open:
-            i, kind = rng.choice(n_open)
-            how = rng.choice(["exit", "eof"] if kind == "cli" else ["close", "eof", "blank"])
-            ops.append(["leave", i, how])
-            n_open = [(j, k) for j, k in n_open if j != i]
-        elif r < 0.93 and not stopped:
-            ops.append(["stop"])
-            stopped = True
-        elif stopped:
-            ops.append(["probe"])
-    if not stopped and rng.random() < 0.5:
-        ops.append(["stop"])
-        stopped = True
-    rng.shuffle(n_open)
-    for i, kind in n_open:
-        how = rng.choice(["exit", "eof"] if kind == "cli" else ["close", "eof", "blank"])
-        ops.append(["leave", i, how])
-    if not stopped:
-        ops.append(["stop"])
-    ops.append(["probe"])
+
+    def release():
+        raws = b.open_clients(("raw",))
+        need_closer = "gather-and-close" not in [b.clients[i]["hanging"] for i in b.hangers()]
+        add(["release", rng.choice(raws) if (need_closer and raws and rng.random() < 0.8) else None])
+
+    def background(n):
+        """ordinary traffic"""
+        for _ in range(n):
+            r = rng.random()
+            anyc = b.open_clients(("raw", "cli"))
+            if r < 0.2:
+                if b.stopped:
+                    add(["probe"])
+                elif len(b.clients) < 7:
+                    connect()
+            elif r < 0.6 and anyc:
+                add(["cmd", rng.choice(anyc), rng.choice(QUIET if (b.hangers() or b.closed) else COMMANDS)])
+            elif r < 0.82 and b.open_clients(("raw", "cli", "mute")):
+                i = rng.choice(b.open_clients(("raw", "cli", "mute")))
+                add(["leave", i, how_to_leave(rng, b.clients[i]["kind"])])
+            elif r < 0.93:
+                add(["stop"])
+            elif b.stopped:
+                add(["probe"])
+
+    n = rng.randint(2, 9 if tier == "quick" else 16)
+    if rng.random() < 0.4:
+        # one client (or two) has a waiting command in flight while the others go on
+        k = rng.randint(0, n)
+        background(k)
+        while len(b.open_clients(("raw",))) < 2 and not b.stopped and len(b.clients) < 7:
+            add(["connect", "raw"])
+        raws = b.open_clients(("raw",))
+        if len(raws) >= 2:
+            cmds = rng.sample(WAITERS, rng.choice([1, 1, 2]))
+            for w_, i in zip(cmds, rng.sample(raws, len(cmds))):
+                if len(b.open_clients(("raw", "cli"))) >= 2:
+                    add(["hang", i, w_])
+            others = b.open_clients(("raw", "cli"))
+            for _ in range(rng.randint(1, 3)):
+                if others:
+                    add(["cmd", rng.choice(others), rng.choice(QUIET)])
+                    others = b.open_clients(("raw", "cli"))
+            background(rng.randint(0, 3))
+            if b.hangers():
+                release()
+        background(n - k)
+    else:
+        background(n)
+    if b.hangers():
+        raws = b.open_clients(("raw",))
+        need_closer = "gather-and-close" not in [b.clients[i]["hanging"] for i in b.hangers()]
+        add(["release", rng.choice(raws) if (need_closer and raws and rng.random() < 0.8) else None])
+    if not b.stopped and rng.random() < 0.5:
+        add(["stop"])
+    rest = b.open_clients(("raw", "cli", "mute"))
+    rng.shuffle(rest)
+    ghost_last = rng.random() < 0.25
+    if ghost_last:
+        rest = [i for i in rest if b.clients[i]["kind"] != "mute"] + [i for i in rest if b.clients[i]["kind"] == "mute"]
+    for i in rest:
+        add(["leave", i, how_to_leave(rng, b.clients[i]["kind"])])
+    if ghost_last and not b.stopped:
+        add(["connect", "mute"])
+        add(["leave", len(b.clients) - 1, how_to_leave(rng, "mute")])
+    add(["stop"])
+    add(["probe"])
     return ops
+
+
+def plan(case):
+    """per op: (valid, model lines)"""
+    b = Book()
+    return [b.apply(op) for op in case["ops"]]
 
 
 def model_lines(case):
     lines = [f"vstart {'unix' if case['transport'] == 'unix' else 'tcp'}"]
-    idx = 0
-    live = {}
-    for op in case["ops"]:
-        if op[0] in ("connect", "probe"):
-            lines.append("vin connect")
-        elif op[0] == "cmd":
-            lines.append(f"vin line {op[1]}")
-        elif op[0] == "leave":
-            lines.append(f"vin {'exit' if op[2] == 'exit' else 'close'} {op[1]}")
-        elif op[0] == "stop":
-            lines.append("vin stop")
+    for ok, ls in plan(case):
+        lines.extend(ls)
     return lines
 
 
@@ -335,8 +512,10 @@ class NetRun:
         self.dir = tempfile.mkdtemp(prefix="verif-c19-")
         self.path = os.path.join(self.dir, "s.sock")
         clients = []
+        steps = plan(case)
         mlines = model.run_driver("cdriver", model_lines(case))
         mi = 0
+        gc.disable()             # a connection the server forgot to close must not be rescued by a lucky garbage collection
         try:
             with Capture() as cap:
                 port = None
@@ -367,79 +546,137 @@ class NetRun:
                 else:
                     pool.start(2)
                 await W.spin(10)
-                await self.settle(parse_model(mlines[mi]), -1)
+                m = parse_model(mlines[mi])
+                await self.settle(m, -1)
                 mi += 1
                 base = W.observe(pool)
-                locked = False
+                released = False
+
+                async def after_answer(c, closed, step, stop):
+                    """once the server no longer serves, a session leaves its loop after answering"""
+                    if not stop:
+                        return
+                    if c.kind == "raw":
+                        if not closed and not await c.saw_eof():
+                            self.fail("diff", what="connection not closed by the server after the reply", step=step)
+                        c.open = False
+                        c.writer.close()
+                    else:
+                        msg = await c.close("exit")
+                        if msg:
+                            self.fail("monitor", monitor="cli-client", step=step, detail=msg)
+
                 for step, op in enumerate(case["ops"]):
-                    m = parse_model(mlines[mi])
-                    mi += 1
+                    valid, mls = steps[step]
+                    ms = [parse_model(mlines[mi + k]) for k in range(len(mls))]
+                    mi += len(mls)
+                    if ms:
+                        m = ms[-1]
+                    if not valid:
+                        self.stats["skipped_ops"] += 1
+                        continue
                     self.stats["op:" + op[0]] += 1
                     if op[0] in ("connect", "probe"):
-                        c = RawClient() if op[0] == "probe" or op[1] == "raw" else CliClient()
-                        ok, greeting = await c.connect(addr, str(pool))
-                        self.stats["clients:" + c.kind] += 1
-                        if ok != (m["accepted"] == "1"):
+                        mute = op[0] == "connect" and op[1] == "mute"
+                        c = CliClient() if (op[0] == "connect" and op[1] == "cli") else RawClient()
+                        if mute:
+                            ok, greeting = await c.connect_only(addr), None
+                            self.stats["clients:mute"] += 1
+                        else:
+                            ok, greeting = await c.connect(addr, str(pool))
+                            self.stats["clients:" + c.kind] += 1
+                        if ok != (ms[0]["accepted"] == "1"):
                             if ok:
                                 self.fail("monitor", monitor="accepts-connections-after-stop", step=step, detail=greeting)
                             else:
                                 self.fail("monitor", monitor="client-not-served", step=step, detail=greeting)
-                        if ok and greeting != str(pool) + "\n":
+                        if ok and not mute and greeting != str(pool) + "\n":
                             self.fail("monitor", monitor="handshake-reply", step=step, detail=greeting)
                         if ok:
                             clients.append(c)
                         elif c.kind == "cli":
                             c.kill()
                     elif op[0] == "cmd":
-                        c = clients[op[1]] if op[1] < len(clients) else None
-                        if c is not None and c.open:
-                            want = expected_reply(pool, op[2])
-                            if op[2] == "lock":
-                                locked = True
-                            if op[2] == "unlock":
-                                locked = False
-                            reply, closed = await c.command(op[2])
-                            self.stats["commands"] += 1
-                            if (reply is not None) != (m["answered"] == "1"):
-                                self.fail("monitor", monitor="client-not-served", step=step, detail={"line": op[2], "reply": reply})
-                            elif reply is not None:
-                                if want is not None and reply != want:
-                                    self.fail("monitor", monitor="wrong-reply", step=step, detail={"line": op[2], "reply": reply, "want": want})
-                                if want is None and "invalid choice" not in reply:
-                                    self.fail("monitor", monitor="wrong-reply", step=step, detail={"line": op[2], "reply": reply[:200]})
-                            if m["stop"] == "1" and c.kind == "raw":
-                                # the session leaves its loop after answering once the server no longer serves
-                                if not closed and not await c.saw_eof():
-                                    self.fail("diff", what="connection not closed by the server after the reply", step=step)
-                                c.open = False
-                                c.writer.close()
-                            elif m["stop"] == "1":
-                                msg = await c.close("exit")
-                                if msg:
-                                    self.fail("monitor", monitor="cli-client", step=step, detail=msg)
+                        c = clients[op[1]]
+                        want = expected_reply(pool, op[2])
+                        reply, closed = await c.command(op[2])
+                        self.stats["commands"] += 1
+                        if any(x.busy for x in clients):
+                            self.stats["commands_while_another_waits"] += 1
+                        if (reply is not None) != (ms[0]["answered"] == "1"):
+                            self.fail("monitor", monitor="client-not-served", step=step,
+                                      detail={"line": op[2], "reply": reply,
+                                              "waiting_in_other_sessions": [x.busy for x in clients if x.busy]})
+                        elif reply is not None:
+                            if want is not None and reply != want:
+                                self.fail("monitor", monitor="wrong-reply", step=step, detail={"line": op[2], "reply": reply, "want": want})
+                            if want is None and "invalid choice" not in reply:
+                                self.fail("monitor", monitor="wrong-reply", step=step, detail={"line": op[2], "reply": reply[:200]})
+                        await after_answer(c, closed, step, m["stop"] == "1")
+                    elif op[0] == "hang":
+                        c = clients[op[1]]
+                        await c.send_only(op[2])
+                        c.busy = op[2]
+                        self.stats["waiting_commands"] += 1
+                        early, _ = await c.read_reply(HOLD)
+                        if early is not None:
+                            self.fail("monitor", monitor="reply-before-wait-ended", step=step, detail={"line": op[2], "reply": early})
+                    elif op[0] == "release":
+                        released = True
+                        wmod.release()
+                        await asyncio.sleep(0.01)
+                        k = 0
+                        hang = [x for x in clients if x.busy]
+                        if op[1] is not None:
+                            c = clients[op[1]]
+                            reply, closed = await c.command("gather-and-close")
+                            if reply != "ok\n":
+                                self.fail("monitor", monitor="client-not-served", step=step,
+                                          detail={"line": "gather-and-close", "reply": reply,
+                                                  "waiting_in_other_sessions": [x.busy for x in hang]})
+                            await after_answer(c, closed, step, ms[k]["stop"] == "1")
+                            k += 1
+                        elif all(x.busy != "gather-and-close" for x in hang):
+                            for _ in range(3):
+                                wmod.release()
+                                await asyncio.sleep(0.005)
+                            try:
+                                await asyncio.wait_for(pool.gather_and_close(), STEP_WAIT)
+                            except asyncio.TimeoutError:
+                                raise W.HarnessTimeout("direct gather_and_close() did not return")
+                        for c in hang:
+                            for _ in range(3):
+                                wmod.release()
+                            reply, closed = await c.read_reply(STEP_WAIT)
+                            want = "True\n" if c.busy == "until-closed" else "ok\n"
+                            if reply != want:
+                                self.fail("monitor", monitor="no-reply-after-wait-ended" if reply is None else "wrong-reply",
+                                          step=step, detail={"line": c.busy, "reply": reply, "want": want})
+                            c.busy = None
+                            await after_answer(c, closed, step, ms[k]["stop"] == "1")
+                            k += 1
                     elif op[0] == "leave":
-                        c = clients[op[1]] if op[1] < len(clients) else None
-                        if c is not None and c.open:
-                            before = W.observe(pool)
-                            msg = await c.close(op[2])
-                            if msg:
-                                self.fail("monitor", monitor="cli-client", step=step, detail=msg)
-                            await asyncio.sleep(0.01)
-                            if W.observe(pool) != before:
-                                self.fail("monitor", monitor="disconnect-altered-pool", step=step, detail=[before, W.observe(pool)])
-                            for other in clients:
-                                if other.open and other.kind == "raw" and m["stop"] == "0":
-                                    r, _ = await other.command("num-running")
-                                    if r != str(pool.num_running) + "\n":
-                                        self.fail("monitor", monitor="disconnect-disturbed-other-session", step=step, detail=r)
-                                    break
+                        c = clients[op[1]]
+                        before = W.observe(pool)
+                        msg = await c.close(op[2])
+                        if msg:
+                            self.fail("monitor", monitor="cli-client", step=step, detail=msg)
+                        await asyncio.sleep(0.01)
+                        if W.observe(pool) != before:
+                            self.fail("monitor", monitor="disconnect-altered-pool", step=step, detail=[before, W.observe(pool)])
+                        for other in clients:
+                            if other.open and other.kind == "raw" and not other.mute and not other.busy and m["stop"] == "0":
+                                r, _ = await other.command("num-running")
+                                if r != str(pool.num_running) + "\n":
+                                    self.fail("monitor", monitor="disconnect-disturbed-other-session", step=step, detail=r)
+                                break
                     elif op[0] == "stop":
                         self.task.cancel()
                     await self.settle(m, step)
                     if self.fails:
                         break
                 now = W.observe(pool)
-                if (now[0], now[1], now[2]) != (base[0], base[1], base[2]):
+                if not released and not self.fails and (now[0], now[1], now[2]) != (base[0], base[1], base[2]):
                     self.fail("monitor", monitor="pool-tasks-disturbed", detail=[base, now])
                 o, e = cap.take()
                 if o or e:
@@ -463,6 +700,8 @@ class NetRun:
                     pass
             await W.settle_pool(pool)
             shutil.rmtree(self.dir, ignore_errors=True)
+            gc.enable()
+            gc.collect()
 
     def run(self):
         run_async(self.scenario, 180)
